@@ -76,5 +76,5 @@ MANIFEST = {
     "note": "Kernel-checked theorems are about the model; the tie is seeded differential execution plus a syn translator for the start-up "
             "guard. list_keys order is modelled as arbitrary (non-deterministic model). The wall clock is replaced by the injected queue "
             "clock (hook). Scheduler thread and process exit are not exercised here.",
-    "technique": "Lean 4 proof (induction, non-deterministic model) + correspondence check + source translators (tables; the body of Queue::schedule_task as a Lean definition, gen_schedule_task_eq_model; the fold closure of Queue::claim_scheduled_pending_task, gen_claim_fold_chooses_earliest_due: folded over the pending keys in any order it yields a member of claimChoices)",
+    "technique": "Lean 4 proof (induction, non-deterministic model) + correspondence check + source translators (tables; the body of Queue::schedule_task as a Lean definition, gen_schedule_task_eq_model; the fold closure of Queue::claim_scheduled_pending_task, gen_claim_fold_chooses_earliest_due: folded over the pending keys in any order it yields a member of claimChoices; the entry points of TaskQueue in mq.rs - schedule, schedule_and_finish_existing, schedule_missing, schedule_task, reschedule - composed with it: gen_tq_*_eq_model)",
 }
